@@ -728,8 +728,44 @@ func (x *fnExec) modelled(s *State, instr ssa.Instruction, callee *ssa.Function,
 	case "net.CIDRMask":
 		r := in.newRegion("CIDRMask", false)
 		r.Fresh = true
+		// CIDRMask(ones, bits) has bits/8 bytes when 0 <= ones <= bits, and is nil otherwise. With a constant bits the
+		// length is taken as bits/8: the callers pass Prefix.Bits() of a prefix whose address they tested with Is4 / Is6,
+		// which netip keeps within 0..bits (noted as an assumption)
+		if len(args) == 2 {
+			if iv, ok := args[1].(IntV); ok {
+				if b, isC := iv.L.ConstVal(); isC && (b == 32 || b == 128) {
+					in.Notes["net.CIDRMask(ones, const bits): ones assumed within 0..bits (Prefix.Bits of a tested address)"]++
+					return one(SliceV{Reg: r, Len: Const(b / 8), Cap: Const(b / 8)})
+				}
+			}
+		}
 		ln := in.Atoms.Fresh("len:CIDRMask", 0, 16)
 		return one(SliceV{Reg: r, Len: AtomLin(ln), Cap: AtomLin(ln), MaybeNil: true})
+	case "bytes.LastIndex", "bytes.Index", "strings.LastIndex", "strings.Index":
+		// -1, or an offset at which the whole separator fits: r >= 0 and r + len(sep) <= len(s)
+		var hay, sep *SliceV
+		if len(args) == 2 {
+			if a, ok := args[0].(SliceV); ok {
+				hay = &a
+			}
+			if b, ok := args[1].(SliceV); ok {
+				sep = &b
+			}
+		}
+		if hay == nil || sep == nil || hay.Reg == nil {
+			return nil, false
+		}
+		found := s.fork()
+		miss := s
+		ra := in.Atoms.Fresh("ext:"+shortName(name), 0, PosInf)
+		fit := hay.Len.Sub(AtomLin(ra)).Sub(sep.Len) // len(s) - r - len(sep) >= 0
+		bind(miss, IntV{Const(-1)})
+		if !found.h.feasibleWith(fit) {
+			return []*State{miss}, true
+		}
+		found.h.addFact(fit)
+		bind(found, IntV{AtomLin(ra)})
+		return []*State{found, miss}, true
 	case "(*sync.Pool).Get":
 		if len(args) == 1 {
 			if p, ok := args[0].(PtrV); ok && p.Cell != nil {
